@@ -2,7 +2,8 @@ import Qx.Driver.Proto
 import Qx.Xml.Tree
 import Qx.Xml.Codec.Scalar
 /-! Driver ops with prefix `scalar-` of the C01/C02 driver: the typed scalar helpers (tier B).
-Fields are TAB separated; strings are hex-encoded UTF-8, `-` for the empty string. -/
+Fields are separated by single spaces (the framework cuts a harness line at its first TAB, so an op
+cannot contain one) or, equivalently, by TABs; strings are hex-encoded UTF-8, `-` for the empty string. -/
 namespace Qx.Driver.ScalarOps
 open Qx.Xml.Codec.Scalar
 
@@ -30,7 +31,8 @@ def bad : Option String := some "bad-op"
 
 /-- handle one op line; `none` when the line is not ours -/
 def step (line : String) : Option String :=
-  match Qx.Driver.fields line with
+  let fs := if line.contains '\t' then Qx.Driver.fields line else Qx.Driver.words line
+  match fs with
   | ["scalar-int", bits, sg, h] =>
     match bits.toNat?, strOfHex h with
     | some b, some s =>
@@ -62,8 +64,8 @@ def step (line : String) : Option String :=
     match strOfHex h with
     | some s => some (showDt (dtParseCode s))
     | none => bad
-  | ["scalar-dtprint", v] =>
-    match (v.splitOn " ").map String.toInt? with
+  | "scalar-dtprint" :: vs =>
+    match (vs.flatMap (·.splitOn " ")).map String.toInt? with
     | [some y, some mo, some d, some h, some mi, some s, some ms] =>
       if mo < 0 ∨ d < 0 ∨ h < 0 ∨ mi < 0 ∨ s < 0 ∨ ms < 0 then bad
       else some (hexOfStr (dtToStr ⟨y, mo.toNat, d.toNat, h.toNat, mi.toNat, s.toNat, ms.toNat⟩))
